@@ -42,7 +42,7 @@ type gen struct {
 
 // function index space of a generated program
 const (
-	fLog    = 0 // import env.log   (i64) -> i64
+	fLog    = 0 // import env.log   (i64) -> (i64, i64): an api.GoFunction with MORE results than parameters
 	fHgrow  = 1 // import env.hgrow (i32) -> i32: the host grows the guest's memory through api.Memory.Grow
 	fHelper = 2
 	fRun    = 3
@@ -114,7 +114,7 @@ func (g *gen) stmt(depth int) []byte {
 		return c.Cat(c.LocalGet(lB), addr(off), c.B(0x29), c.MemArg(3, off), c.B(0x85), c.LocalSet(lB))
 	case 6, 7:
 		g.shape["hostcall"]++
-		return c.Cat(c.LocalGet(lA), c.Call(fLog), c.LocalSet(lA))
+		return c.Cat(c.LocalGet(lA), c.Call(fLog), c.B(0x85), c.LocalSet(lA))
 	case 8:
 		g.shape["global"]++
 		return c.Cat(c.GlobalGet(0), c.LocalGet(lA), c.B(0x7c), c.GlobalSet(0), c.GlobalGet(0), c.LocalGet(lB), c.B(0x85), c.LocalSet(lB))
@@ -248,7 +248,7 @@ func fixedProg(rng *c.Rng, id, how int, max uint32, addr uint32) *Prog {
 func assemble(p *Prog, g *gen, body []byte) []byte {
 	rng, id := g.rng, p.ID
 	m := &c.Mod{}
-	m.Types = [][]byte{c.FT(c.B(c.I64), c.B(c.I64)), c.FT(c.B(c.I64, c.I64), c.B(c.I64)), c.FT(c.B(c.I32), c.B(c.I64)), c.FT(nil, nil), c.FT(c.B(c.I32), c.B(c.I32))}
+	m.Types = [][]byte{c.FT(c.B(c.I64), c.B(c.I64, c.I64)), c.FT(c.B(c.I64, c.I64), c.B(c.I64)), c.FT(c.B(c.I32), c.B(c.I64)), c.FT(nil, nil), c.FT(c.B(c.I32), c.B(c.I32))}
 	m.Imports = [][]byte{c.ImportFunc("env", "log", 0), c.ImportFunc("env", "hgrow", 4)}
 	m.Funcs = [][]byte{c.U32(1), c.U32(2), c.U32(3), c.U32(4), c.U32(2)}
 	var mx *uint32
@@ -532,11 +532,17 @@ func (x *rt) exec(ctx context.Context, p *Prog, e Exec) (out Exec) {
 	}()
 	sk := &sink{}
 	cf := x.cfg
+	hctx := ctx
+	if cf.Listener { // listeners are attached to the host functions as well
+		hctx = experimental.WithFunctionListenerFactory(ctx, factory)
+	}
 	_, err := x.r.NewHostModuleBuilder("env").NewFunctionBuilder().
 		WithGoFunction(api.GoFunc(func(_ context.Context, stack []uint64) {
 			sk.host = append(sk.host, stack[0])
-			stack[0] = stack[0]*3 + uint64(len(sk.host))
-		}), []api.ValueType{api.ValueTypeI64}, []api.ValueType{api.ValueTypeI64}).Export("log").
+			x := stack[0]
+			stack[0] = x*3 + uint64(len(sk.host))
+			stack[1] = x ^ 0x5555555555555555
+		}), []api.ValueType{api.ValueTypeI64}, []api.ValueType{api.ValueTypeI64, api.ValueTypeI64}).Export("log").
 		NewFunctionBuilder().
 		WithGoModuleFunction(api.GoModuleFunc(func(_ context.Context, m api.Module, stack []uint64) {
 			prev, ok := m.Memory().Grow(uint32(stack[0]))
@@ -544,7 +550,7 @@ func (x *rt) exec(ctx context.Context, p *Prog, e Exec) (out Exec) {
 				prev = 0xffffffff
 			}
 			stack[0] = uint64(prev)
-		}), []api.ValueType{api.ValueTypeI32}, []api.ValueType{api.ValueTypeI32}).Export("hgrow").Instantiate(ctx)
+		}), []api.ValueType{api.ValueTypeI32}, []api.ValueType{api.ValueTypeI32}).Export("hgrow").Instantiate(hctx)
 	if err != nil {
 		out.Err = "host: " + err.Error()
 		return
